@@ -196,6 +196,14 @@ Theorem C01_same_line_is_common_line : forall (line : nat -> nat) (v0 : list nat
 Proof. exact same_line_expr_spec. Qed.
 Print Assumptions C01_same_line_is_common_line.
 
+(** 15. nextFileIndex with its galloping steps (operational model `gallop`) = the linear scan used by the model's nextDoc,
+    for every sorted ends array, offset, and every valid starting hint. *)
+Theorem C01_next_file_index_linear : forall (off f : nat) (ends : list nat), nondecr ends -> f <= length ends ->
+  (forall j, j < f -> j < length ends -> nth j ends 0 <= off) ->
+  next_file_index off f ends = find_end off ends 0.
+Proof. exact next_file_index_linear. Qed.
+Print Assumptions C01_next_file_index_linear.
+
 (** the frequency function used by the correspondence runner satisfies the frequency hypothesis *)
 Lemma count_freq_sound : forall orbit c fn cs g, count_freq orbit c fn cs g = 0%N -> post orbit (ix_tris c fn) cs g = [].
 Proof.
@@ -309,4 +317,6 @@ Proof. vm_compute. auto. Qed.
 (** same-line loop: lines are 10 runes long; child 0 has candidates at 3, 25; child 1 at 14, 27; child 2 at 21 -> common line 2 *)
 Example ex_andline : andline_alg (fun o => o / 10) [[3; 25]; [14; 27]; [21]] 2 = true /\
                      andline_alg (fun o => o / 10) [[3; 25]; [14; 37]; [21]] 2 = false.
+Proof. vm_compute. auto. Qed.
+Example ex_gallop : next_file_index 57 0 [3; 3; 10; 20; 31; 40; 55; 57; 60; 72] = 8 /\ find_end 57 [3; 3; 10; 20; 31; 40; 55; 57; 60; 72] 0 = 8.
 Proof. vm_compute. auto. Qed.
